@@ -28,6 +28,8 @@ type Args struct {
 	Verbose bool   `json:"verbose"`
 	Recheck int    `json:"recheck"` // re-execute every n-th run and compare fingerprints (0: default 50)
 	Limit   int    `json:"limit"`   // cap on cases (0 = all)
+	Skip    []int  `json:"skip"`    // case indices to skip (they killed an earlier worker process)
+	Case    int    `json:"case"`    // genplan: case index
 }
 
 // Found is a violation with its (minimised) plan.
@@ -115,6 +117,36 @@ func shrink(t *testing.T, p *sim.Plan, sig string) *sim.Plan {
 			}
 		}
 	}
+	// RFC 6902 lists inside ietf-json-patch patches: drop single operations
+	for i := range best.Steps {
+		for pi := range best.Steps[i].Patches {
+			for {
+				pm, _ := best.Steps[i].Patches[pi].(map[string]any)
+				ops, _ := pm["patches"].([]any)
+				if pm["action"] != "ietf-json-patch" || len(ops) < 2 {
+					break
+				}
+				reduced := false
+				for k := range ops {
+					i, pi, k := i, pi, k
+					before := len(ops)
+					try(func(q *sim.Plan) {
+						qm := q.Steps[i].Patches[pi].(map[string]any)
+						qo := qm["patches"].([]any)
+						qm["patches"] = append(append([]any{}, qo[:k]...), qo[k+1:]...)
+					})
+					nm, _ := best.Steps[i].Patches[pi].(map[string]any)
+					if no, _ := nm["patches"].([]any); len(no) < before {
+						reduced = true
+						break
+					}
+				}
+				if !reduced {
+					break
+				}
+			}
+		}
+	}
 	return best
 }
 
@@ -152,6 +184,18 @@ func TestSim(t *testing.T) {
 	}()
 
 	switch a.Mode {
+	case "genplan":
+		prop := sim.Properties[a.Prop]
+		if prop == nil {
+			t.Fatalf("unknown property %s", a.Prop)
+		}
+		cases := prop.Cases(a.Seed, a.Tier)
+		p := prop.Gen(cases[a.Case], pool)
+		if err := os.WriteFile(a.Out, p.JSON(), 0o644); err != nil {
+			t.Fatal(err)
+		}
+		a.Out = os.DevNull
+		return
 	case "meta":
 		prop := sim.Properties[a.Prop]
 		if prop == nil {
@@ -223,9 +267,17 @@ func TestSim(t *testing.T) {
 	res.Cases = len(cases)
 	distinct := map[string]struct{}{}
 	seenSig := map[string]bool{}
+	skip := map[int]bool{}
+	for _, s := range a.Skip {
+		skip[s] = true
+	}
 	for i, c := range cases {
-		if i%a.Workers != a.Worker {
+		if i%a.Workers != a.Worker || skip[i] {
 			continue
+		}
+		if a.Out != "" {
+			// progress marker: tells the driver which case was running if this process is killed by a fatal error
+			_ = os.WriteFile(a.Out+".progress", []byte(fmt.Sprint(i)), 0o644)
 		}
 		p := prop.Gen(c, pool)
 		if p == nil {
